@@ -435,6 +435,211 @@ end
 /-- `Type::canonicalize` (the payload of the returned `CanonicalType`). -/
 def canonicalize (t : Ty) : Ty := (canonGo t ⟨0, []⟩).1
 
+/-! ### Lifetime utilities (type_.rs): `has_implicit_lifetime_parameters`, `set_implicit_lifetimes`,
+`rename_lifetime_parameters`, `lifetime_parameters`, `named_lifetime_parameters` -/
+
+/-- `name.strip_prefix('\'')`. -/
+def stripQuote (s : String) : String :=
+  match s.toList with
+  | '\'' :: r => String.ofList r
+  | _ => s
+
+/-- `Lifetime::from_name` (lifetime.rs). `NamedLifetime::new` strips one more leading quote (and panics
+    on `"_"` / `"static"` at that point — names with two leading quotes are outside the model). -/
+def Lt.fromName (s : String) : Lt :=
+  let n := stripQuote s
+  if n = "_" then .inferred else if n = "static" then .static else .named (stripQuote n)
+
+/-- `GenericLifetimeParameter::from_name` (generic_argument.rs). -/
+def GLt.fromName (s : String) : GLt :=
+  let n := stripQuote s
+  if n = "_" then .inferred else if n = "static" then .static else .named (stripQuote n)
+
+/-- `impl From<GenericLifetimeParameter> for Lifetime`. -/
+def GLt.toLt : GLt → Lt
+  | .static => .static
+  | .named n => .named n
+  | .inferred => .inferred
+
+mutual
+/-- `Type::has_implicit_lifetime_parameters`. -/
+def hasImplicit : Ty → Bool
+  | .path _ _ _ _ as => hasImplicitArgs as
+  | .ref _ l t => (match l with
+      | .inferred => true
+      | .elided => true
+      | _ => hasImplicit t)
+  | .tuple es => hasImplicitTys es
+  | .scalar _ => false
+  | .slice e => hasImplicit e
+  | .array e _ => hasImplicit e
+  | .rawPtr _ t => hasImplicit t
+  | .fnPtr ins out _ _ => hasImplicitIns ins || hasImplicitO out
+  | .generic _ => false
+def hasImplicitArgs : GArgs → Bool
+  | .nil => false
+  | .ty t r => hasImplicit t || hasImplicitArgs r
+  | .lt l r => (match l with | .inferred => true | _ => false) || hasImplicitArgs r
+  | .const _ r => hasImplicitArgs r
+def hasImplicitTys : Tys → Bool
+  | .nil => false
+  | .cons t r => hasImplicit t || hasImplicitTys r
+def hasImplicitIns : FnIns → Bool
+  | .nil => false
+  | .cons _ t r => hasImplicit t || hasImplicitIns r
+def hasImplicitO : OTy → Bool
+  | .none => false
+  | .some t => hasImplicit t
+end
+
+/-- The `Lifetime::Inferred | Lifetime::Elided => from_name(..)` step of `set_implicit_lifetimes`. -/
+def setImplicitLt (x : String) : Lt → Lt
+  | .inferred => Lt.fromName x
+  | .elided => Lt.fromName x
+  | l => l
+
+/-- The `GenericLifetimeParameter::Inferred => from_name(..)` step of `set_implicit_lifetimes`. -/
+def setImplicitGLt (x : String) : GLt → GLt
+  | .inferred => GLt.fromName x
+  | l => l
+
+mutual
+/-- `Type::set_implicit_lifetimes(inferred_lifetime)`. -/
+def setImplicit (x : String) : Ty → Ty
+  | .path al p i bs as => .path al p i bs (setImplicitArgs x as)
+  | .ref m l t =>
+      .ref m (setImplicitLt x l) (setImplicit x t)
+  | .tuple es => .tuple (setImplicitTys x es)
+  | .scalar s => .scalar s
+  | .slice e => .slice (setImplicit x e)
+  | .array e n => .array (setImplicit x e) n
+  | .rawPtr m t => .rawPtr m (setImplicit x t)
+  | .fnPtr ins out abi u => .fnPtr (setImplicitIns x ins) (setImplicitO x out) abi u
+  | .generic g => .generic g
+def setImplicitArgs (x : String) : GArgs → GArgs
+  | .nil => .nil
+  | .ty t r => .ty (setImplicit x t) (setImplicitArgs x r)
+  | .lt l r => .lt (setImplicitGLt x l) (setImplicitArgs x r)
+  | .const v r => .const v (setImplicitArgs x r)
+def setImplicitTys (x : String) : Tys → Tys
+  | .nil => .nil
+  | .cons t r => .cons (setImplicit x t) (setImplicitTys x r)
+def setImplicitIns (x : String) : FnIns → FnIns
+  | .nil => .nil
+  | .cons n t r => .cons n (setImplicit x t) (setImplicitIns x r)
+def setImplicitO (x : String) : OTy → OTy
+  | .none => .none
+  | .some t => .some (setImplicit x t)
+end
+
+/-- `IndexMap::get`. -/
+def mget : List (String × String) → String → Option String
+  | [], _ => none
+  | (k, v) :: r, x => if k = x then some v else mget r x
+
+/-- The `Lifetime::Named(l)` step of `rename_lifetime_parameters`. -/
+def renameLt (m : List (String × String)) : Lt → Lt
+  | .named n => (match mget m n with
+      | some new => Lt.fromName new
+      | none => .named n)
+  | l => l
+
+/-- The `GenericLifetimeParameter::Named(l)` step of `rename_lifetime_parameters`. -/
+def renameGLt (m : List (String × String)) : GLt → GLt
+  | .named n => (match mget m n with
+      | some new => GLt.fromName new
+      | none => .named n)
+  | l => l
+
+mutual
+/-- `Type::rename_lifetime_parameters(original2renamed)`. -/
+def renameLts (m : List (String × String)) : Ty → Ty
+  | .path al p i bs as => .path al p i bs (renameLtsArgs m as)
+  | .ref mu l t =>
+      .ref mu (renameLt m l) (renameLts m t)
+  | .tuple es => .tuple (renameLtsTys m es)
+  | .scalar s => .scalar s
+  | .slice e => .slice (renameLts m e)
+  | .array e n => .array (renameLts m e) n
+  | .rawPtr mu t => .rawPtr mu (renameLts m t)
+  | .fnPtr ins out abi u => .fnPtr (renameLtsIns m ins) (renameLtsO m out) abi u
+  | .generic g => .generic g
+def renameLtsArgs (m : List (String × String)) : GArgs → GArgs
+  | .nil => .nil
+  | .ty t r => .ty (renameLts m t) (renameLtsArgs m r)
+  | .lt l r =>
+      .lt (renameGLt m l) (renameLtsArgs m r)
+  | .const v r => .const v (renameLtsArgs m r)
+def renameLtsTys (m : List (String × String)) : Tys → Tys
+  | .nil => .nil
+  | .cons t r => .cons (renameLts m t) (renameLtsTys m r)
+def renameLtsIns (m : List (String × String)) : FnIns → FnIns
+  | .nil => .nil
+  | .cons n t r => .cons n (renameLts m t) (renameLtsIns m r)
+def renameLtsO (m : List (String × String)) : OTy → OTy
+  | .none => .none
+  | .some t => .some (renameLts m t)
+end
+
+/-- `IndexSet<Lifetime>::insert`. -/
+def insertLt (s : List Lt) (l : Lt) : List Lt := if l ∈ s then s else s ++ [l]
+
+mutual
+/-- `Type::lifetime_parameters`. -/
+def lifetimes : Ty → List Lt → List Lt
+  | .path _ _ _ _ as, s => lifetimesArgs as s
+  | .ref _ l t, s => lifetimes t (insertLt s l)
+  | .tuple es, s => lifetimesTys es s
+  | .scalar _, s => s
+  | .slice e, s => lifetimes e s
+  | .array e _, s => lifetimes e s
+  | .rawPtr _ t, s => lifetimes t s
+  | .fnPtr ins out _ _, s => lifetimesO out (lifetimesIns ins s)
+  | .generic _, s => s
+def lifetimesArgs : GArgs → List Lt → List Lt
+  | .nil, s => s
+  | .ty t r, s => lifetimesArgs r (lifetimes t s)
+  | .lt l r, s => lifetimesArgs r (insertLt s l.toLt)
+  | .const _ r, s => lifetimesArgs r s
+def lifetimesTys : Tys → List Lt → List Lt
+  | .nil, s => s
+  | .cons t r, s => lifetimesTys r (lifetimes t s)
+def lifetimesIns : FnIns → List Lt → List Lt
+  | .nil, s => s
+  | .cons _ t r, s => lifetimesIns r (lifetimes t s)
+def lifetimesO : OTy → List Lt → List Lt
+  | .none, s => s
+  | .some t, s => lifetimes t s
+end
+
+mutual
+/-- `Type::named_lifetime_parameters`. -/
+def namedLts : Ty → List String → List String
+  | .path _ _ _ _ as, s => namedLtsArgs as s
+  | .ref _ l t, s => namedLts t (match l with | .named n => insertNew s n | _ => s)
+  | .tuple es, s => namedLtsTys es s
+  | .scalar _, s => s
+  | .slice e, s => namedLts e s
+  | .array e _, s => namedLts e s
+  | .rawPtr _ t, s => namedLts t s
+  | .fnPtr ins out _ _, s => namedLtsO out (namedLtsIns ins s)
+  | .generic _, s => s
+def namedLtsArgs : GArgs → List String → List String
+  | .nil, s => s
+  | .ty t r, s => namedLtsArgs r (namedLts t s)
+  | .lt l r, s => namedLtsArgs r (match l with | .named n => insertNew s n | _ => s)
+  | .const _ r, s => namedLtsArgs r s
+def namedLtsTys : Tys → List String → List String
+  | .nil, s => s
+  | .cons t r, s => namedLtsTys r (namedLts t s)
+def namedLtsIns : FnIns → List String → List String
+  | .nil, s => s
+  | .cons _ t r, s => namedLtsIns r (namedLts t s)
+def namedLtsO : OTy → List String → List String
+  | .none, s => s
+  | .some t, s => namedLts t s
+end
+
 /-! ### Rendering (render.rs `Type::render_into`, generic_argument.rs `GenericArgument::render_into`,
 function_pointer.rs `write_fn_pointer_prefix`, scalar_primitive.rs `as_str`) -/
 
